@@ -624,3 +624,9 @@ def check_plumbing(rep, repo, lmod, simmod, init):
     rep.ob('C01.plumbing', 'nbytes covers all lanes for any batch size', ok)
     if not ok:
         rep.violate('C01.plumbing', lmod, li, nb[0] if nb else 'nbytes', 'nbytes must be ceil(sims / 8) so that batch sizes that are not multiples of 8 fit', node=nb[0] if nb else li)
+
+
+def thorough(rep, repo):
+    """Thorough tier: the quick rules plus checker self-validation on the C01 slice of the mutation corpus."""
+    from kvstatic import thorough as thorough_mod
+    thorough_mod.selftest_slice(rep, repo, 'C01')
